@@ -61,6 +61,18 @@ impl Ctx {
             &["nr".into(), lb.to_string(), hx(data), nums(src), nums(reqs)], &imp, Some(pred), cls);
     }
 
+    /// LiteralData::from_str: one more place that stores the canonical text (utf8 mode literal)
+    fn lit(&mut self, data: &[u8], cls: &str) {
+        let s = String::from_utf8(data.to_vec()).expect("ascii");
+        let r = guarded(|| pgp::packet::LiteralData::from_str("", &s).map(|l| l.data().to_vec()).map_err(|e| e.to_string()));
+        let (imp, pred) = match r {
+            Ok(Ok(v)) => { let ok = v == canon(data); (hx(&v), ok) }
+            Ok(Err(e)) => (format!("ERR {e}"), false),
+            Err(e) => (e, false),
+        };
+        self.out.case("nl", &["1".into(), hx(data)], &["lit".into(), hx(data)], &imp, Some(pred), cls);
+    }
+
     /// normalize_lines (in-memory)
     fn nl(&mut self, lb: u8, data: &[u8], cls: &str) {
         let lbv = match lb { 0 => LineBreak::Lf, 1 => LineBreak::Crlf, _ => LineBreak::Cr };
@@ -224,6 +236,7 @@ fn main() {
                 cx.nh(true, &chunks, "nh-exh");
             }
             cx.nl(1, &s, "nl-exh");
+            cx.lit(&s, "literal-from-str-exh");
             if len <= 6 { cx.csf(&s, "csf-exh"); }
             if len <= 6 {
                 cx.nl(0, &s, "nl-exh-lf");
@@ -337,6 +350,7 @@ fn replay(cx: &mut Ctx, a: &[String]) {
                       &parse_nums(a.get(4).map(|s| s.as_str()).unwrap_or("_")), "replay"),
         "nl" => cx.nl(a[1].parse().unwrap(), &unhx(&a[2]), "replay"),
         "csf" => cx.csf(&unhx(&a[1]), "replay"),
+        "lit" => cx.lit(&unhx(&a[1]), "replay"),
         "crlf" => {
             let chunks = parse_chunks(&a[1]);
             let sizes: Vec<usize> = chunks.iter().map(|c| c.len()).collect();
